@@ -145,6 +145,33 @@ func checkFunction(e *Enc, tier string, seed int, keepDir string) []*Result {
 	if len(e.obls) == 0 {
 		return nil
 	}
+	if only := os.Getenv("GVC_ONLY"); only != "" {
+		// debugging aid: decide only the obligations whose name contains one of the given substrings, standalone
+		var wg sync.WaitGroup
+		for i, o := range e.obls {
+			want := "unsat"
+			if o.Cover {
+				want = "sat"
+			}
+			results[i] = &Result{Ob: o, Status: want, Solver: "skipped"}
+			hit := false
+			for _, sub := range strings.Split(only, ",") {
+				if strings.Contains(o.Name, sub) {
+					hit = true
+				}
+			}
+			if !hit {
+				continue
+			}
+			wg.Add(1)
+			go func(i int) {
+				defer wg.Done()
+				results[i] = race(e, e.obls[i], raceMs, seed)
+			}(i)
+		}
+		wg.Wait()
+		return results
+	}
 	// phase 1: one incremental run
 	inc := e.incrementalScript()
 	out, secs := runIncremental(solvers[0], inc, quickMs, seed)
